@@ -22,7 +22,8 @@ def _value_jobs(prop_id, family, scns, tier, seed, **kw):
     sim_budget = kw.pop("sim_budget", sim_budget)
     for s in scns:
         s = dict(s)
-        s["max_resp"] = S.bfs_bound(s, bfs_budget)
+        ncfg = len(s.get("configs") or [1])
+        s["max_resp"] = S.bfs_bound(s, max(2, bfs_budget // ncfg))
         jobs.append(make_job(s, family, ("replay_basic", "replay"), mode="bfs",
                              prop_id=prop_id, **kw))
         depth = s["max_resp"] + 3
@@ -72,4 +73,50 @@ def c03(tier, seed):
     )
 
 
-PROPS = {"C01": c01, "C02": c02, "C03": c03}
+def _with_insertions(scns, n, seed, **kw):
+    import configs
+    import envelope
+    out = []
+    for i, s in enumerate(scns):
+        s = dict(s)
+        ri, ci = envelope.slice_dim_indexes(s["dims"])
+        rd = s["dims"][ri]
+        cd = s["dims"][ci] if ci is not None else None
+        s["configs"] = configs.insertion_configs(rd, cd, n, seed * 1000 + i, **kw)
+        out.append(s)
+    return out
+
+
+def c04(tier, seed):
+    from scenarios import cat, mr, caitems, cacat, scenario
+    n = 12 if tier == "quick" else 60
+    y = dict(yvals=(0, 1, 3), ymeasures=("mean", "sum"), valid_counts=True)
+    scns = [
+        scenario("cat_x_cat", [cat("A", 4, miss=[2]), cat("B", 4, miss=[4])]),
+        scenario("cat_x_mr", [cat("A", 4, miss=[3]), mr("B", 2)]),
+        scenario("mr_x_cat", [mr("A", 2), cat("B", 4, miss=[1])]),
+        scenario("catdate_x_cat", [cat("A", 4, miss=[4], date=True), cat("B", 3)]),
+        scenario("cat_x_catdate", [cat("A", 3), cat("B", 4, miss=[1], date=True)]),
+        scenario("casub_x_cacat", [caitems("A", 2), cacat("A", 4, miss=[2])]),
+        scenario("cacat_x_casub", [cacat("A", 4, miss=[3]), caitems("A", 2)]),
+        scenario("cat_1d", [cat("A", 4, miss=[2])]),
+        scenario("catdate_1d", [cat("A", 4, miss=[1], date=True)]),
+        scenario("cat_x_cat_x_cat", [cat("T", 2), cat("A", 3), cat("B", 3, miss=[2])]),
+        scenario("cat_x_cat_y", [cat("A", 3), cat("B", 3, miss=[2])], **y),
+        scenario("cat_1d_y", [cat("A", 4, miss=[3])], **y),
+        scenario("cat_x_cat.u", [cat("A", 4, miss=[2]), cat("B", 3)], weighted=False),
+    ]
+    scns = _with_insertions(scns, n, seed)
+    return dict(
+        jobs=_value_jobs("C04", "c04", scns, tier, seed),
+        rule="per scenario a seeded sample of insertion configurations (addend/subtrahend "
+             "sets over valid, missing and stale ids; any anchor; view or transforms) x every "
+             "bag of <= N respondents (BFS) and random larger bags; non-trivial = at least one "
+             "respondent",
+        assumptions=ASSUME_COMMON + ["insertion configurations are sampled by the harness "
+                                     "(syntax only); their meaning is Insertions.tla/Collate.tla"],
+        feature_floor=("weights_differ",),
+    )
+
+
+PROPS = {"C01": c01, "C02": c02, "C03": c03, "C04": c04}
